@@ -133,28 +133,29 @@ type Machine struct {
 	funcsEncoded map[*ssa.Function]bool
 
 	// configuration
-	Known         map[string]string // open known-finding ids -> mode ("exclude" | "confirm")
-	MaxSteps      int64             // per path
-	MaxPaths      int
-	MaxBlockVisit int
-	FeasTimeoutMs int
-	OblTimeout    time.Duration
-	Backends      []string
-	FreshFirst    bool // send obligations straight to fresh solvers
-	Trace         bool
-	EnableMerge   bool
-	curSteps      int64
-	depth         int
-	harnessName   string
-	cur           *frame
-	inScope       bool
-	NoSlice       bool
-	varCache      map[int][]*term.Term
-	asserted      []*term.Term
-	rng           *rand.Rand
-	sessionFP     bool
-	InitAllowed   func(*ssa.Package) bool
-	sorted        bool
+	Known          map[string]string // open known-finding ids -> mode ("exclude" | "confirm")
+	MaxSteps       int64             // per path
+	MaxPaths       int
+	MaxBlockVisit  int
+	FeasTimeoutMs  int
+	OblTimeout     time.Duration
+	Backends       []string
+	FreshFirst     bool // send obligations straight to fresh solvers
+	Trace          bool
+	EnableMerge    bool
+	curSteps       int64
+	depth          int
+	harnessName    string
+	cur            *frame
+	inScope        bool
+	NoSlice        bool
+	SummarizeGFMul bool
+	varCache       map[int][]*term.Term
+	asserted       []*term.Term
+	rng            *rand.Rand
+	sessionFP      bool
+	InitAllowed    func(*ssa.Package) bool
+	sorted         bool
 }
 
 type undo struct {
